@@ -9,32 +9,58 @@
    entry; only the proposer's replica has a channel registered under the entry's
    id (ids are unique), so an outcome can reach no other caller.
 
-   Outcomes are those of a set of ids (insert: ok / exists; remove: ok / notfound). *)
+   Outcomes are those of a set of ids (insert: ok / exists; remove: ok / notfound).
+
+   (third session) A caller may GIVE UP - its context is cancelled or the proposal times out - at
+   any moment after it registered, also when its outcome already sits in the channel: it returns an
+   error (never a false acknowledgement) and removes its channel from the notificator; a later
+   notification for its entry finds no channel and is dropped.  Channels are objects: with
+   RecycleChannels = FALSE (as shipped) every Register makes a new, empty one; with TRUE a removed
+   channel goes to a free list as it is and the next Register takes it - together with whatever
+   an abandoned caller left in it, which the next caller then takes for its own outcome. *)
 EXTENDS Integers, Sequences, FiniteSets, TLC
 
-CONSTANTS Callers, Ids, NotifCap, Ops   \* Ops: [Callers -> [op, id]]
+CONSTANTS Callers, Ids, NotifCap, Ops,   \* Ops: [Callers -> [op, id]]
+          RecycleChannels, MayGiveUp       \* MayGiveUp: the callers that may give up
 
 VARIABLES pc,       \* [Callers -> "start" | "registered" | "proposed" | "waiting" | "returned"]
-          chan,     \* [Callers -> Seq(outcome)]   the caller's notification channel (registered once pc # "start")
+          chan,     \* [channel object -> Seq(outcome)]
+          chanOf,   \* [Callers -> channel object registered under the caller's entry id, 0 = none]
+          free,     \* recycled channel objects
+          made,     \* number of channel objects made so far
           log,      \* sequence of callers whose entries are committed, in commit order
           applied,  \* number of log entries applied
           store,    \* set of ids present
           outcome,  \* [Callers -> outcome or "none"]: what applying the caller's entry produced
           ret       \* [Callers -> what the caller returned, "none" before]
-vars == <<pc, chan, log, applied, store, outcome, ret>>
+vars == <<pc, chan, chanOf, free, made, log, applied, store, outcome, ret>>
+Chans == 1..Cardinality(Callers)
 
-Init == /\ pc = [c \in Callers |-> "start"] /\ chan = [c \in Callers |-> <<>>]
+Init == /\ pc = [c \in Callers |-> "start"] /\ chan = [k \in Chans |-> <<>>]
+        /\ chanOf = [c \in Callers |-> 0] /\ free = {} /\ made = 0
         /\ log = <<>> /\ applied = 0 /\ store = {}
         /\ outcome = [c \in Callers |-> "none"] /\ ret = [c \in Callers |-> "none"]
 
-Register(c) == pc[c] = "start" /\ pc' = [pc EXCEPT ![c] = "registered"] /\ UNCHANGED <<chan, log, applied, store, outcome, ret>>
+Register(c) == /\ pc[c] = "start" /\ pc' = [pc EXCEPT ![c] = "registered"]
+               /\ IF RecycleChannels /\ free # {}
+                  THEN LET k == CHOOSE x \in free : TRUE IN
+                       chanOf' = [chanOf EXCEPT ![c] = k] /\ free' = free \ {k} /\ UNCHANGED <<made, chan>>
+                  ELSE chanOf' = [chanOf EXCEPT ![c] = made + 1] /\ made' = made + 1 /\ UNCHANGED <<free, chan>>
+               /\ UNCHANGED <<log, applied, store, outcome, ret>>
 Propose(c)  == pc[c] = "registered" /\ pc' = [pc EXCEPT ![c] = "proposed"] /\ log' = Append(log, c)
-               /\ UNCHANGED <<chan, applied, store, outcome, ret>>
+               /\ UNCHANGED <<chan, chanOf, free, made, applied, store, outcome, ret>>
 \* the gap between raft.Propose returning and the select
-EnterSelect(c) == pc[c] = "proposed" /\ pc' = [pc EXCEPT ![c] = "waiting"] /\ UNCHANGED <<chan, log, applied, store, outcome, ret>>
-Receive(c) == /\ pc[c] = "waiting" /\ chan[c] # <<>>
-              /\ ret' = [ret EXCEPT ![c] = Head(chan[c])] /\ chan' = [chan EXCEPT ![c] = Tail(@)]
-              /\ pc' = [pc EXCEPT ![c] = "returned"] /\ UNCHANGED <<log, applied, store, outcome>>
+EnterSelect(c) == pc[c] = "proposed" /\ pc' = [pc EXCEPT ![c] = "waiting"] /\ UNCHANGED <<chan, chanOf, free, made, log, applied, store, outcome, ret>>
+\* the deferred notificator.Remove: the channel leaves the map (and, recycled, joins the free list undrained)
+Release(c) == /\ chanOf' = [chanOf EXCEPT ![c] = 0]
+              /\ free' = IF RecycleChannels THEN free \cup {chanOf[c]} ELSE free
+Receive(c) == /\ pc[c] = "waiting" /\ chan[chanOf[c]] # <<>>
+              /\ ret' = [ret EXCEPT ![c] = Head(chan[chanOf[c]])] /\ chan' = [chan EXCEPT ![chanOf[c]] = Tail(@)]
+              /\ pc' = [pc EXCEPT ![c] = "returned"] /\ Release(c) /\ UNCHANGED <<made, log, applied, store, outcome>>
+\* context cancelled / timed out: whether or not the outcome has been delivered meanwhile
+GiveUp(c) == /\ c \in MayGiveUp /\ pc[c] \in {"proposed", "waiting"}
+             /\ ret' = [ret EXCEPT ![c] = "err"] /\ pc' = [pc EXCEPT ![c] = "returned"]
+             /\ Release(c) /\ UNCHANGED <<chan, made, log, applied, store, outcome>>
 
 Eval(c) == LET o == Ops[c] IN
   IF o.op = "insert" THEN (IF o.id \in store THEN "exists" ELSE "ok")
@@ -43,19 +69,20 @@ Apply == /\ applied < Len(log)
          /\ LET c == log[applied + 1]  r == Eval(c)  o == Ops[c] IN
             /\ store' = IF r = "ok" THEN (IF o.op = "insert" THEN store \cup {o.id} ELSE store \ {o.id}) ELSE store
             /\ outcome' = [outcome EXCEPT ![c] = r]
-            \* Notify(id, r, non-blocking)
-            /\ chan' = [chan EXCEPT ![c] =
+            \* Notify(id, r, non-blocking): nothing happens when no channel is registered under the id any more
+            /\ chan' = IF chanOf[c] = 0 THEN chan
+                       ELSE [chan EXCEPT ![chanOf[c]] =
                           IF Len(@) < NotifCap \/ (NotifCap = 0 /\ pc[c] = "waiting" /\ @ = <<>>) THEN Append(@, r) ELSE @]
          /\ applied' = applied + 1
-         /\ UNCHANGED <<pc, log, ret>>
+         /\ UNCHANGED <<pc, chanOf, free, made, log, ret>>
 \* with capacity 0 a send succeeds only as a rendezvous: the value is consumed at once
 Rendezvous(c) == NotifCap = 0 /\ Receive(c)
 
-Next == (\E c \in Callers : Register(c) \/ Propose(c) \/ EnterSelect(c) \/ Receive(c)) \/ Apply
+Next == (\E c \in Callers : Register(c) \/ Propose(c) \/ EnterSelect(c) \/ Receive(c) \/ GiveUp(c)) \/ Apply
 Spec == Init /\ [][Next]_vars
 FairSpec == Spec /\ WF_vars(Apply) /\ \A c \in Callers : WF_vars(Register(c) \/ Propose(c) \/ EnterSelect(c) \/ Receive(c))
 
 \* C11
-Truthful  == \A c \in Callers : ret[c] # "none" => ret[c] = outcome[c]          \* the caller gets ITS outcome, hence ok only if applied
+Truthful  == \A c \in Callers : ret[c] \notin {"none", "err"} => ret[c] = outcome[c]   \* the caller gets ITS outcome (or an error), hence ok only if applied
 Delivered == \A c \in Callers : <>(pc[c] = "returned")                           \* ... and always gets it (no timeout in the model)
 =============================================================================
